@@ -62,6 +62,9 @@ extern SimCPU g_simcpu;
 extern void (*g_cpu_yield_hook)(int kind, uintptr_t site);
 // optional hook invoked at every isal_verif_sched_point
 extern void (*g_sched_hook)(uintptr_t site);
+// invoked between the load and the store of an unlocked read-modify-write instruction that follows a scheduling point
+extern void (*g_rmw_gap_hook)(uintptr_t site);
+extern uint64_t g_rmw_split_count, g_rmw_unmodelled_count;
 
 // CPUID bit names the dispatchers test
 enum : uint32_t {
